@@ -200,6 +200,10 @@ def cases(tier, seed, i, n):
                     calls.insert(2, dict(name='send_text', args=['text ' * 7]))
                     calls.insert(4, dict(name='send_ping', args=[b'pp']))
                     yield dict(kind='hist', mode=mode, mask=None, calls=calls, faults=[['sendall', k, fk]])
+        # (1d) a call nested in the socket write of another call on the same thread
+        for outer in (['send_binary', b'o' * 300], ['send_text', 'outer ' * 40], ['send_binary', b'O' * 70000]):
+            for inner in (['send_ping', b'inner'], ['send_text', 'inner'], ['close', 1000, 'inner'], ['send_pong', b'']):
+                yield dict(kind='nested', outer=outer, inner=inner)
         # (1c) calls made while the loop thread is inflating compressed messages from the server
         for prog in ('loop-server-ztext-snct+sender-z', 'loop-server-zbfinal+sender-z', 'loop-server-ztext+sender-z'):
             yield dict(kind='threads', prog=prog, mode='dfs', max_runs=400 if tier == 'quick' else 4000)
@@ -299,9 +303,71 @@ def run_threads(case, acc):
         c11.account(prog, out, judge, acc, dict(case, pid='C03'), 'random', None)
 
 
+def run_nested(case, acc):
+    """A send or close made by the SAME thread while it is in the middle of a socket write (a signal handler, a
+    finaliser or a logging handler that ships records over the websocket runs there): the frame in progress must stay
+    whole - the nested call is refused (WebSocketError) or its frame goes out before / after, never inside."""
+    from .. import simnet
+    outer, inner = case['outer'], case['inner']
+    w = H.World(H.hs_server([]), split_send=True)
+    rec = {}
+
+    def policy(ws, ev, idx, run):
+        if ev.name != 'poll' or rec:
+            return
+        done = []
+
+        def hook(tag):
+            if done:
+                return
+            done.append(1)
+            rec['inner'] = H.app_call(run, ws, inner[0], *inner[1:])
+        w.yield_hook = hook
+        rec['outer'] = H.app_call(run, ws, outer[0], *outer[1:])
+        w.yield_hook = None
+
+    run = H.drive(w, connect_kwargs=dict(ping_rate=0), policy=policy, companion=False)
+    acc.count2('oracle', 'nested_call_runs')
+    if 'inner' not in rec:
+        acc.inconclusive.append('nested: the outer call never reached the middle of its write: %r' % (case,))
+        return
+    reqs, frames, residue, errors = H.client_frames(w.conns[0])
+    detail = dict(outer=(rec['outer']['ok'], rec['outer']['exc']), inner=(rec['inner']['ok'], rec['inner']['exc']),
+                  frames=[(f['opcode'], len(f['payload'])) for f in frames], residue=residue[:40], errors=errors)
+    key = None
+    for r in (rec['outer'], rec['inner']):
+        if r['exc_type'] is not None and not issubclass(r['exc_type'], lerrors.WebSocketError):
+            key = 'nested-call-raised-non-websocket-error:%s' % r['exc_type'].__name__
+    if key is None and (residue or errors):
+        key = 'not-exactly-one-frame:call-nested-in-the-write-of-the-same-thread-torn-the-frame'
+    if key is None:
+        want = []
+        for r, call in ((rec['outer'], outer), (rec['inner'], inner)):
+            if r['ok']:
+                want.append(call)
+        sigs = [(f['opcode'], f['payload']) for f in frames]
+        for call in want:
+            op = {'send_text': 1, 'send_binary': 2, 'send_ping': 9, 'send_pong': 10, 'close': 8}[call[0]]
+            if op == 8:
+                # close() reports a Close frame that could not be written by entering the closing state, not by
+                # raising (same as for a failed write): a missing Close frame is not judged here
+                ok = True
+            else:
+                pl = call[1].encode('utf-8') if isinstance(call[1], str) else call[1]
+                ok = (op, pl) in sigs
+            if not ok:
+                key = 'payload-does-not-round-trip:call-nested-in-the-write-of-the-same-thread'
+    if key:
+        acc.violation(key, 'C03 %s: %s inside the write of %s' % (key, inner[0], outer[0]), case, detail)
+    else:
+        acc.cls('nested/%s/%s/%s' % (outer[0], inner[0], detail['inner'][0]))
+
+
 def run_case(case, acc):
     if case['kind'] == 'threads':
         return run_threads(case, acc)
+    if case['kind'] == 'nested':
+        return run_nested(case, acc)
     mode = case['mode']
     z = bool(mode.get('z'))
     hs = dict(extra=[('Sec-WebSocket-Extensions', mode['ext'])]) if z else {}
